@@ -134,6 +134,16 @@ def handle (st : DState) (line : String) : DState × String :=
       | none => []
       | some p => Sync.compare p fr (hide == "1") [] (wu == "1") false
     ({ st with prev := some fr }, if out.isEmpty then "-" else " ".intercalate (out.map showUntagged))
+  | ["layout", kind, name] =>
+    -- name: code points; delimiter '/'; prints REJECT or the lexically resolved path below the user directory
+    let parts := Layout.splitOn Layout.slash (parseNats name)
+    if (parseNats name) == [73, 78, 66, 79, 88] then (st, "INBOX")
+    else if !(if kind == "default" then Layout.validPartsDefault parts else Layout.validParts parts) then (st, "REJECT")
+    else
+      let p := if kind == "default" then Layout.defaultPath [] parts else Layout.fsPath [] parts
+      match Layout.norm p with
+      | none => (st, "ESCAPE")
+      | some q => (st, if q.isEmpty then "SELF" else "/".intercalate (q.map showNats))
   | ["ns", "reset"] => ({ st with ns := ⟨0, [], [], 1⟩ }, "ok")
   | ["ns", "create", n] => let r := Namespace.create st.ns (parseNats n); ({ st with ns := r.1 }, if r.2 == .ok then "OK" else "NO")
   | ["ns", "delete", n] => let r := Namespace.delete st.ns (parseNats n); ({ st with ns := r.1 }, if r.2 == .ok then "OK" else "NO")
